@@ -508,8 +508,25 @@ void execute_assignment(StatementExecutor *executor, Interpreter &interpreter,
 
         // v0.11.0 Week 3 Day 1: 右辺が配列要素（構造体）の場合を処理
         // tasks[1] = tasks[0] のようなケース
+        // Only elements of a struct array exist as separate struct variables
+        // ("tasks[0]"). Building the element name evaluates the index
+        // expressions of the right-hand side, so it is not done for an array
+        // that is known to hold plain values: there the general evaluation
+        // below evaluates them, and doing it here too ran them twice
+        // (a[0] = b[f()] called f twice).
+        bool right_is_plain_value_array = false;
         if (node->right &&
             node->right->node_type == ASTNodeType::AST_ARRAY_REF) {
+            Variable *right_array = interpreter.find_variable(
+                interpreter.extract_array_name(node->right.get()));
+            right_is_plain_value_array =
+                right_array && right_array->is_array &&
+                !right_array->is_struct && right_array->type != TYPE_STRUCT &&
+                !right_array->is_pointer && !right_array->is_reference;
+        }
+        if (node->right &&
+            node->right->node_type == ASTNodeType::AST_ARRAY_REF &&
+            !right_is_plain_value_array) {
             std::string right_element_name =
                 interpreter.extract_array_element_name(node->right.get());
             Variable *right_var = interpreter.find_variable(right_element_name);
